@@ -3,7 +3,7 @@
    degree p, index j on the knot sequence t; the code's sequence is [knot opsR a dx p] with
    dx = (b - a)/n_segments, so that t_p = a (domain_min) and t_{n_segments+p} = b (domain_max). *)
 From Coq Require Import List Reals QArith.
-From FDAV Require Import Base.Num Base.Vec Model.Basis Lemmas.Vec Lemmas.Basis.
+From FDAV Require Import Base.Num Base.Vec Model.Basis Model.Poly Lemmas.Vec Lemmas.Basis Lemmas.Legendre.
 Import ListNotations.
 Local Open Scope R_scope.
 
@@ -46,8 +46,27 @@ Theorem C18_bs_partition_of_unity : forall a b nseg p, a < b -> (0 < nseg)%nat -
 Proof. exact code_bs_partition_of_unity. Qed.
 Print Assumptions C18_bs_partition_of_unity.
 
-(* Legendre (Bonnet recurrence): P_k(1) = 1.  C18_legendre_orthogonal_partial: orthogonality on
-   [-1,1] is NOT proved; it is monitored by quadrature on fine grids in the correspondence run. *)
+(* Legendre (Bonnet recurrence): P_k(1) = 1; the values are those of the polynomials built by the same
+   recurrence on coefficient lists; those polynomials are orthogonal on [-1,1] with squared norm
+   2/(2k+1) for ALL DEGREES <= 15 (the property's range), by exact polynomial integration — a finite
+   check (vm_compute in Q, lifted by forallb_forall and the Q/R transfer).
+   C18_legendre_orthogonal_partial: not the unbounded claim (all degrees), and the identification of the
+   exact polynomial integral with the Riemann integral is not re-proved. *)
+Theorem C18_legendre_is_polynomial : forall k x, peval opsR (leg_poly opsR k) x = legendre opsR k x.
+Proof. exact leg_poly_eval. Qed.
+Print Assumptions C18_legendre_is_polynomial.
+Theorem C18_legendre_product : forall j k x,
+  peval opsR (pmul opsR (leg_poly opsR j) (leg_poly opsR k)) x = legendre opsR j x * legendre opsR k x.
+Proof. exact leg_product_eval. Qed.
+Print Assumptions C18_legendre_product.
+Theorem C18_legendre_orthogonal_upto15 : forall j k, (j <= 15)%nat -> (k <= 15)%nat -> j <> k ->
+  pint11 opsR (pmul opsR (leg_poly opsR j) (leg_poly opsR k)) = 0.
+Proof. exact legendre_orthogonal_upto15. Qed.
+Print Assumptions C18_legendre_orthogonal_upto15.
+Theorem C18_legendre_norm_upto15 : forall k, (k <= 15)%nat ->
+  pint11 opsR (pmul opsR (leg_poly opsR k) (leg_poly opsR k)) = 2 / INR (2 * k + 1).
+Proof. exact legendre_norm_upto15. Qed.
+Print Assumptions C18_legendre_norm_upto15.
 Theorem C18_legendre_at_one : forall k, legendre opsR k 1 = 1.
 Proof. exact legendre_at_one. Qed.
 Print Assumptions C18_legendre_at_one.
